@@ -678,6 +678,8 @@ func callSSA(i *interpreter, caller *frame, callpos token.Pos, fn *ssa.Function,
 // After a recovered panic in a function with NRPs, fr.result is
 // undefined and fr.block contains the block at which to resume
 // control.
+var debugPanics = os.Getenv("GOBMC_PANICS") != ""
+
 func runFrame(fr *frame) {
 	defer func() {
 		if fr.block == nil {
@@ -702,6 +704,9 @@ func runFrame(fr *frame) {
 		}
 		fr.panicking = true
 		fr.panic = r
+		if debugPanics {
+			fmt.Fprintf(os.Stderr, "gobmc: panic %v passes %s (block %v)\n", r, fr.fn, fr.block)
+		}
 		if fr.i.mode&EnableTracing != 0 {
 			fmt.Fprintf(os.Stderr, "Panicking: %T %v.\n", fr.panic, fr.panic)
 		}
